@@ -2,6 +2,7 @@ package props
 
 import (
 	"fmt"
+	"os"
 
 	"github.com/crillab/gophersat/solver"
 
@@ -15,6 +16,7 @@ import (
 type C14Case struct {
 	Domain string       `json:"domain"` // cnf | card | pb
 	P      *ref.Problem `json:"p"`
+	M      *gen.MaxSat  `json:"m,omitempty"` // domain relaxed: P is the relaxed form of M, which gives the reference optimum
 	AMO    bool         `json:"amo"` // run DetectAtMostOne first
 	Limit  int          `json:"limit,omitempty"`
 }
@@ -24,6 +26,39 @@ var c14Counts = map[string]int{"quick": 30_000, "thorough": 600_000}
 func c14Gen(r *gen.Rng, tier string, idx int) interface{} {
 	c := &C14Case{Domain: []string{"cnf", "cnf", "card", "pb"}[r.Intn(4)], AMO: r.Chance(1, 3), Limit: []int{0, 0, 3}[r.Intn(3)]}
 	big := r.Chance(1, 6) // larger instances: up to 14 variables, more constraints, larger coefficients
+	if r.Chance(1, 60) { // relaxed MaxSAT with many soft clauses: a long optimisation (hundreds to thousands of conflicts, restarts in the middle of it)
+		c.Domain = "relaxed"
+		c.AMO = false
+		nv := r.Range(10, 14)
+		m := &gen.MaxSat{N: nv}
+		for k := r.Range(1, 3); k > 0; k-- { // hard unit clauses ...
+			m.Hard = append(m.Hard, ref.Cl(r.Lit(nv)))
+		}
+		for k := r.Intn(4); k > 0; k-- {
+			m.Hard = append(m.Hard, ref.Cl(r.DistinctLits(nv, r.Range(2, 3))...))
+		}
+		for k := r.Range(40, 80); k > 0; k-- {
+			m.Soft = append(m.Soft, ref.Cl(r.DistinctLits(nv, r.Range(1, 3))...))
+			m.W = append(m.W, r.Range(1, 6))
+		}
+		for _, h := range m.Hard[:1] { // ... and a soft clause contradicting one of them: its relaxation variable becomes a top-level fact
+			m.Soft = append(m.Soft, ref.Cl(-h.Lits[0]))
+			m.W = append(m.W, r.Range(1, 6))
+		}
+		c.M = m
+		p := &ref.Problem{N: nv + len(m.Soft), HasCost: true}
+		for _, h := range m.Hard {
+			p.Cons = append(p.Cons, h.Clone())
+		}
+		for i, sc := range m.Soft {
+			relax := nv + i + 1
+			p.Cons = append(p.Cons, ref.Cl(append(append([]int{}, sc.Lits...), relax)...))
+			p.CostLits = append(p.CostLits, relax)
+			p.CostW = append(p.CostW, m.W[i])
+		}
+		c.P = p
+		return c
+	}
 	if r.Chance(1, 25) { // larger pure CNF under cutting planes: hundreds to thousands of conflicts, Luby restarts, PB clause deletion
 		c.Domain = "bigcnf"
 		c.AMO = false
@@ -34,9 +69,73 @@ func c14Gen(r *gen.Rng, tier string, idx int) interface{} {
 			cnf, n = gen.Pigeonhole(h+1, h)
 		} else {
 			n = r.Range(30, 50)
-			cnf = gen.Random3SAT(r, n, 3, r.Range(400, 470))
+			cnf = gen.Random3SAT(r, n, 3, r.Range(360, 470))
+		}
+		if r.Chance(1, 5) { // planted-satisfiable 3-CNF on 80..100 variables with a full-length objective: hundreds of conflicts spread over many improvement steps
+			n = r.Range(80, 100)
+			hidden := make([]bool, n+1)
+			for v := 1; v <= n; v++ {
+				hidden[v] = r.Bool()
+			}
+			cnf = nil
+			for len(cnf) < n*r.Range(400, 420)/100 {
+				cl := r.DistinctLits(n, 3)
+				for _, l := range cl {
+					if (l > 0) == hidden[abs(l)] {
+						cnf = append(cnf, cl)
+						break
+					}
+				}
+			}
+			c.P = ref.CNFToProblem(cnf, n)
+			c.P.HasCost = true
+			for v := 1; v <= n; v++ {
+				c.P.CostLits = append(c.P.CostLits, v)
+				c.P.CostW = append(c.P.CostW, 1)
+			}
+			for k := 0; k < 3; k++ { // unit clauses on fresh variables that the objective would like to falsify
+				c.P.N++
+				c.P.Cons = append(c.P.Cons, ref.Cl(c.P.N))
+				c.P.CostLits = append(c.P.CostLits, c.P.N)
+				c.P.CostW = append(c.P.CostW, r.Range(2, 6))
+			}
+			c.Domain = "bigopt"
+			return c
 		}
 		c.P = ref.CNFToProblem(cnf, n)
+		if r.Bool() { // unit clauses whose literals the objective would like to falsify: the optimum depends on top-level facts surviving restarts
+			c.P.HasCost = true
+			for k := r.Range(2, 5); k > 0; k-- {
+				l := r.Lit(n)
+				c.P.Cons = append(c.P.Cons, ref.Cl(l))
+				c.P.CostLits = append(c.P.CostLits, l)
+				c.P.CostW = append(c.P.CostW, r.Range(1, 9))
+			}
+			seen := map[int]bool{}
+			var lits, ws []int
+			for i, l := range c.P.CostLits { // each variable at most once in the cost function
+				v := l
+				if v < 0 {
+					v = -v
+				}
+				if !seen[v] {
+					seen[v] = true
+					lits, ws = append(lits, l), append(ws, c.P.CostW[i])
+				}
+			}
+			full := r.Bool() // a full-length objective makes the optimisation long: hundreds of conflicts spread over many Solve calls
+			for v := 1; v <= n; v++ {
+				if !seen[v] && (full || r.Chance(1, 8)) {
+					seen[v] = true
+					l := v
+					if r.Chance(1, 4) {
+						l = -v
+					}
+					lits, ws = append(lits, l), append(ws, r.Range(1, 9))
+				}
+			}
+			c.P.CostLits, c.P.CostW = lits, ws
+		}
 		return c
 	}
 	if r.Chance(1, 20) { // pigeonhole with cardinality constraints, beyond the truth table: the verdict is known by construction
@@ -208,7 +307,7 @@ func InstallCPHooks() {
 func c14Build(c *C14Case, rec *Rec, scen string) (pb *solver.Problem) {
 	rec.Guard(scen+"/build", func() {
 		switch c.Domain {
-		case "cnf", "bigcnf":
+		case "cnf", "bigcnf", "bigopt", "relaxed":
 			var cnf [][]int
 			for _, l := range c.P.Cons {
 				cnf = append(cnf, append([]int{}, l.Lits...))
@@ -231,16 +330,26 @@ func c14Build(c *C14Case, rec *Rec, scen string) (pb *solver.Problem) {
 
 func c14Run(ci interface{}, rec *Rec) {
 	c := ci.(*C14Case)
-	if ConcurrentMode && c.Domain == "bigcnf" {
+	if ConcurrentMode && (c.Domain == "bigcnf" || c.Domain == "bigopt" || c.Domain == "relaxed") {
 		return // too slow under the race detector; C01's large instances play that role in C16
 	}
 	p := c.P
 	n := p.N
+	if !ConcurrentMode { // termination bound in logical steps, scaled to the size class of the instance
+		solver.VerifHooks.StepBudget = c14Budget()
+		if c.Domain == "bigcnf" || c.Domain == "bigopt" || c.Domain == "relaxed" || c.Domain == "php" {
+			solver.VerifHooks.StepBudget = 200 * c14Budget()
+		}
+	}
 	var models []uint32
 	var sat bool
 	min := 0
 	if c.Domain == "php" {
 		sat = len(p.Cons[0].Lits) >= len(p.Cons[len(p.Cons)-1].Lits) // holes >= pigeons
+	} else if c.Domain == "bigopt" {
+		sat = true // planted model
+	} else if c.Domain == "relaxed" {
+		min, sat = c.M.Optimum(c.M.N)
 	} else if c.Domain == "bigcnf" {
 		var cnf [][]int
 		for _, l := range p.Cons {
@@ -290,7 +399,7 @@ func c14Run(ci interface{}, rec *Rec) {
 			s = solver.New(pb)
 			s.CuttingPlanes = cp
 			x.solver = s
-			x.active = cp && entry == "Solve" && c.Domain != "php" && c.Domain != "bigcnf" && !ConcurrentMode // learned constraints are only comparable with the original problem when no bound constraint was added
+			x.active = cp && entry == "Solve" && c.Domain != "php" && c.Domain != "bigcnf" && c.Domain != "bigopt" && c.Domain != "relaxed" && !ConcurrentMode // learned constraints are only comparable with the original problem when no bound constraint was added
 			defer func() { x.active = false }()
 			switch entry {
 			case "Solve":
@@ -320,6 +429,7 @@ func c14Run(ci interface{}, rec *Rec) {
 			rec.Count("cp_conflicts", s.Stats.NbConflicts)
 			rec.Count("cp_deleted", s.Stats.NbDeleted)
 			rec.Max("cp_max_conflicts_in_one_run", s.Stats.NbConflicts)
+			rec.Max("cp_max_steps_in_one_run_"+map[bool]string{true: "large", false: "small"}[c.Domain == "bigcnf" || c.Domain == "bigopt" || c.Domain == "relaxed" || c.Domain == "php"], int(s.VerifSteps()))
 			rec.Count("cp_restarts", s.Stats.NbRestarts)
 			if s.Stats.NbRestarts > 0 {
 				rec.Count("cp_runs_with_restart", 1)
@@ -335,9 +445,28 @@ func c14Run(ci interface{}, rec *Rec) {
 				rec.Viol(scen, "wrong-verdict", "Sat-for-unsat", "answered Sat but the problem has no model")
 				return
 			}
-			if c.Domain == "php" || c.Domain == "bigcnf" {
+			if c.Domain == "php" || c.Domain == "bigcnf" || c.Domain == "bigopt" || c.Domain == "relaxed" {
 				if bad := firstViolatedBools(p, model); bad >= 0 {
 					rec.Viol(scen, "bad-model", "Model", "model %v violates constraint #%d: %s", model, bad, p.Cons[bad])
+					return
+				}
+				if entry != "Solve" && hasCost {
+					real := 0
+					for i, l := range p.CostLits {
+						v := l
+						if v < 0 {
+							v = -v
+						}
+						if (v-1 < len(model) && model[v-1]) == (l > 0) {
+							real += p.CostW[i]
+						}
+					}
+					if real != ans.cost {
+						rec.Viol(scen, "cost-mismatch", "Weight", "reported cost %d, the model costs %d", ans.cost, real)
+					}
+					if c.Domain == "relaxed" && ans.cost != min {
+						rec.Viol(scen, "not-optimal", "Weight", "reported cost %d, the optimum is %d", ans.cost, min)
+					}
 				}
 				return
 			}
@@ -389,9 +518,9 @@ func init() {
 		Setup: func(string) {
 			InstallSeqHooks()
 			InstallCPHooks()
-			solver.VerifHooks.StepBudget = 3_000_000 // far above any legitimate search on these sizes (the largest observed run stays below 10% of it)
+			solver.VerifHooks.StepBudget = c14Budget() // far above any legitimate search on these sizes (the largest observed run stays below 10% of it)
 		},
-		Rule: "random problems over 2..12 variables in three domains - pure CNF (3-SAT around the threshold, AMO-rich, pigeonhole, mixed), cardinality, PB with signed coefficients - with or without a cost function and with or without prior DetectAtMostOne; each is solved (and, with a cost function, optimised through Optimal and Minimize) with CuttingPlanes off and on: both answers are judged by the truth table and compared with each other; during Solve with the strategy on, every constraint the analysis reports through the verifPB hook (conflict, reason, rounded, resolvent, final, learned constraint, learned top-level units) must be implied by the problem and a top-level conflict requires an unsatisfiable problem; plus pure CNF on 30..50 variables / clause-form pigeonhole under cutting planes (hundreds to thousands of conflicts: Luby restarts, deletion of learned PB constraints; reference by DPLL); a step budget of 3e6 loop iterations decides termination. " +
+		Rule: "random problems over 2..12 variables in three domains - pure CNF (3-SAT around the threshold, AMO-rich, pigeonhole, mixed), cardinality, PB with signed coefficients - with or without a cost function and with or without prior DetectAtMostOne; each is solved (and, with a cost function, optimised through Optimal and Minimize) with CuttingPlanes off and on: both answers are judged by the truth table and compared with each other; during Solve with the strategy on, every constraint the analysis reports through the verifPB hook (conflict, reason, rounded, resolvent, final, learned constraint, learned top-level units) must be implied by the problem and a top-level conflict requires an unsatisfiable problem; plus pure CNF on 30..50 variables / clause-form pigeonhole under cutting planes (hundreds to thousands of conflicts: Luby restarts, deletion of learned PB constraints; reference by DPLL), and relaxed MaxSAT instances with 40..80 soft clauses (long optimisations with restarts in the middle, reference optimum by exhaustive search over the user variables); a step budget (3e6 loop iterations for the truth-table-sized domains, 6e8 for the large ones; the evidence reports the largest count observed) decides termination. " +
 			"non-trivial = problem with >= 3 constraints; distinct by problem and options",
 		Assumptions: []string{
 			"reference truth table of internal/ref",
@@ -437,4 +566,20 @@ func firstViolatedBools(p *ref.Problem, model []bool) int {
 		}
 	}
 	return -1
+}
+
+func abs(x int) int {
+	if x < 0 {
+		return -x
+	}
+	return x
+}
+
+func c14Budget() int64 {
+	if v := os.Getenv("VERIF_C14_BUDGET"); v != "" {
+		var b int64
+		fmt.Sscan(v, &b)
+		return b
+	}
+	return 3_000_000
 }
